@@ -81,6 +81,8 @@ struct WBXMLParser_s {
     WBXMLContentHandler  *content_hdl;     /**< Content Handlers Callbacks */
     WBXMLBuffer          *wbxml;           /**< The wbxml we are parsing */    
     WBXMLBuffer          *strstbl;         /**< String Table specified in WBXML document */
+    WB_ULONG              strstbl_len;     /**< Length of String Table as declared in WBXML document
+                                                (without the padding added to an unterminated table) */
     const WBXMLLangEntry *langTable;       /**< Current document Language Table */
     const WBXMLLangEntry *mainTable;       /**< Main WBXML Languages Table */
     const WBXMLTagEntry  *current_tag;     /**< Current Tag */
@@ -190,6 +192,7 @@ WBXML_DECLARE(WBXMLParser *) wbxml_parser_create(void)
     parser->user_data = NULL;
     parser->content_hdl = NULL;
     parser->strstbl = NULL;
+    parser->strstbl_len = 0;
     parser->langTable = NULL;
 
     /* Default Main WBXML Languages Table */
@@ -413,6 +416,7 @@ static void wbxml_parser_reinit(WBXMLParser *parser)
   
     wbxml_buffer_destroy(parser->strstbl);
     parser->strstbl         = NULL;
+    parser->strstbl_len     = 0;
   
     parser->langTable       = NULL;
     parser->current_tag     = NULL;
@@ -795,6 +799,8 @@ static WBXMLError parse_strtbl(WBXMLParser *parser)
         parser->strstbl = wbxml_buffer_create(data + parser->pos, strtbl_len, WBXML_PARSER_STRING_TABLE_MALLOC_BLOCK);
         if (parser->strstbl == NULL)
             return WBXML_ERROR_NOT_ENOUGH_MEMORY;
+
+        parser->strstbl_len = strtbl_len;
 
         /** @todo Damned ! Check the charset ! This may not be a simple NULL terminated string ! */
 
@@ -2226,7 +2232,7 @@ static WBXMLError get_strtbl_reference(WBXMLParser  *parser,
         return WBXML_ERROR_NULL_STRING_TABLE;
     }
   
-    if (index >= wbxml_buffer_len(parser->strstbl)) {
+    if (index >= parser->strstbl_len) {
         return WBXML_ERROR_INVALID_STRTBL_INDEX;
     }
 
